@@ -469,8 +469,8 @@ def oracle(h, obs):
             coherent = True
         elif st['cls'] == 'sync' and ok_all:
             coherent = True
-        elif st['cls'] == 'indepwrite' and any(r == 0 for r in rcs):
-            coherent = False
+        elif st['cls'] == 'indepwrite' and any(o['rc'][k] == 0 and st['done'][k] > 0 for k in range(np_)):
+            coherent = False        # an independent write to a record variable: nothing is promised until the next sync call
         if coherent and not st['misuse']:
             if len(set(o['nr'])) != 1:
                 fail('ranks-differ', 'numrecs per rank %s' % o['nr'])
@@ -663,18 +663,40 @@ def apply_letter(h, a, last, variant=0):
         h.simple('reopen'); last[0] = last[1] = None
 
 
-def exhaustive(maxlen, variant=0, fmt=1):
-    """all words of length 1..maxlen over ALPHABET (REDEF = redef+enddef, so a word of 4 letters
-    has up to 8 model steps)"""
+COLL_ONLY = ('CP0', 'CP1', 'CPF', 'WALL', 'WLAST', 'VARN')
+INDEP_ONLY = ('IP0', 'IP1', 'WI0')
+
+
+def rejected(h, a):
+    """the letter is an API call that the current data mode rejects (or a mode switch that is a no-op):
+    the word then behaves like the shorter word without it"""
+    if a in COLL_ONLY: return h.indep
+    if a in INDEP_ONLY: return not h.indep
+    if a == 'BEGIN': return h.indep
+    if a == 'END': return not h.indep
+    return False
+
+
+def word_hist(w, variant=0, fmt=1, prune=False):
+    h = Hist(2, fmt, name='x%d:' % variant + ','.join(w))
+    last = [None, None]
+    for a in w:
+        if prune and rejected(h, a):
+            return None
+        apply_letter(h, a, last, variant)
+    h.close()
+    return h
+
+
+def exhaustive(maxlen, variant=0, fmt=1, minlen=1, prune=False):
+    """all words of length minlen..maxlen over ALPHABET (REDEF = redef+enddef, so a word of 4 letters
+    has up to 8 model steps).  prune: skip words containing a call rejected by the data mode."""
     import itertools
-    for n in range(1, maxlen + 1):
+    for n in range(minlen, maxlen + 1):
         for w in itertools.product(ALPHABET, repeat=n):
-            h = Hist(2, fmt, name='x%d:' % variant + ','.join(w))
-            last = [None, None]
-            for a in w:
-                apply_letter(h, a, last, variant)
-            h.close()
-            yield h
+            h = word_hist(w, variant, fmt, prune)
+            if h is not None:
+                yield h
 
 
 def random_hist(rng, idx):
